@@ -3,7 +3,11 @@
 //! sea-query and `Arc`, and whose data-race / aliasing / UB detector is the oracle next to the
 //! lineage assertions. Also runs natively (then it is just a smoke test).
 //!
-//!   miri_scn <seed> <first-program> <programs>
+//!   miri_scn <seed> <first-program> <programs>            threads first (so that first uses of
+//!                                                         lazily initialised state are contended)
+//!   miri_scn <seed> <first-program> <programs> baseline   the same programs without any thread
+//!                                                         (fresh process): a program that fails
+//!                                                         here is not a thread-safety matter
 
 use seasim::rng::{run_seed, Rng};
 use seasim::thread_scn::*;
@@ -14,16 +18,20 @@ fn main() {
     let seed: u64 = a.get(1).and_then(|s| s.parse().ok()).unwrap_or(20240601);
     let first: u64 = a.get(2).and_then(|s| s.parse().ok()).unwrap_or(0);
     let n: u64 = a.get(3).and_then(|s| s.parse().ok()).unwrap_or(2);
+    let baseline = a.get(4).map(|s| s == "baseline").unwrap_or(false);
     let mut bad = 0;
     for i in first..first + n {
         let mut r = Rng::new(run_seed(seed, i));
         let sc = gen_scenario(&mut r, true);
-        let base = run_scenario::<SeqRt>(&sc);
-        if !base.is_empty() {
-            println!("program {} ({}) fails without threads: not a C20 matter", i, sc.kind());
+        if a.get(4).map(|s| s == "dump").unwrap_or(false) {
+            println!("SCENARIO {} {}", i, serde_json::to_string(&sc).unwrap());
             continue;
         }
-        let f = run_scenario::<StdRt>(&sc);
+        let f = if baseline {
+            run_scenario::<SeqRt>(&sc)
+        } else {
+            run_scenario::<StdRt>(&sc)
+        };
         if f.is_empty() {
             println!("program {} ({}) ok", i, sc.kind());
         } else {
